@@ -85,7 +85,7 @@ pub fn swarm_for(rng: &mut Rng, fam: Fam, thorough: bool) -> Swarm {
     .shrink_if_tiny()
 }
 
-const BOUNDARY_CP: [u32; 9] = [0x7F, 0x80, 0x7FF, 0x800, 0xFFFF, 0x10000, 0x10FFFF, 0xD7FF, 0xE000];
+const BOUNDARY_CP: [u32; 14] = [0x7F, 0x80, 0x7FF, 0x800, 0xFFFF, 0x10000, 0x10FFFF, 0xD7FF, 0xE000, 0xFEFF, 0x100, 0x123, 0x12B, 0x1F600];
 
 fn gen_char(rng: &mut Rng, alphabet: u8) -> char {
     let a = if alphabet == 3 { rng.below(3) as u8 } else { alphabet };
@@ -175,8 +175,8 @@ pub fn gen_text_n(rng: &mut Rng, sw: &Swarm, n: usize, ok: &dyn Fn(char) -> bool
 
 /// Text with content that means something elsewhere in the protocol (all of it legal in an
 /// ordinary UTF-8 string field).
-const SPECIAL_TEXT: [&str; 22] = [
-    "/", "+", "#", "$", "$share/g/t", "$SYS/x", "a/+/b", "a/#", "MQTT", "MQIsdp", "\u{0}", "a\u{0}b", "\u{feff}", "\u{feff}x",
+const SPECIAL_TEXT: [&str; 25] = [
+    "/", "+", "#", "$", "$share/g/t", "$SYS/x", "a/+/b", "a/#", "MQTT", "MQIsdp", "\u{0}", "a\u{0}b", "\u{feff}", "\u{feff}x", "\u{feff}\u{feff}x", "\t", "a\r\nb",
     "\u{1}", "\u{7f}", "\u{80}", "\u{fffd}", "\u{ffff}", " ", "\u{10ffff}", "\u{d7ff}\u{e000}",
 ];
 
@@ -222,11 +222,13 @@ pub fn gen_topic_name(rng: &mut Rng, sw: &Swarm) -> Bs {
         return Bs(vec![]);
     }
     let mut s = String::new();
-    match rng.below(14) {
+    match rng.below(16) {
         0 => s.push_str("$SYS/"),
         1 => s.push_str("$share/"),
         2 => s.push('/'),
         3 => s.push_str(*rng.pick(&NEAR_MISS)),
+        // text that other layers like to "normalise": byte order marks, control characters
+        4 => s.push_str(*rng.pick(&["\u{feff}", "\u{feff}\u{feff}", "\t", "\u{7f}", "\u{85}", " "])),
         _ => {}
     }
     while s.len() < total {
@@ -252,6 +254,29 @@ fn truncate_utf8(s: &mut String, max: usize) {
 }
 
 pub fn gen_topic_filter(rng: &mut Rng, sw: &Swarm) -> Bs {
+    if rng.chance(1, 150) && !tiny() {
+        // degenerate but valid shapes: only separators, only single-level wildcards, one huge level
+        let n = *rng.pick(&[1usize, 2, 3, 255, 256, 257, 65_534, 65_535]);
+        let s: String = match rng.below(4) {
+            0 => "/".repeat(n),
+            1 => {
+                let mut t = "+/".repeat(n / 2);
+                if n % 2 == 1 {
+                    t.push('+');
+                }
+                t
+            }
+            2 => {
+                let mut t = "/".repeat(n - 1);
+                t.push('#');
+                t
+            }
+            _ => "L".repeat(n),
+        };
+        if spec::topic_filter_ok(&s) {
+            return Bs(s.into_bytes());
+        }
+    }
     let total = gen_len(rng, sw, 65_535).max(1);
     let mut s = String::new();
     let shared = rng.chance(1, 6);
@@ -393,7 +418,7 @@ pub fn gen_props(rng: &mut Rng, sw: &Swarm, t: u8) -> Props {
             p.push((*id, gen_prop_value(rng, sw, *id)));
         }
     }
-    if rng.chance(1, 2500) && !tiny() {
+    if rng.chance(1, 600) && !tiny() {
         // long user-property lists with tiny strings (inner counters, 8-bit wrap-arounds)
         let n = *rng.pick(&[255usize, 256, 257]);
         for i in 0..n {
@@ -522,7 +547,8 @@ fn gen_packet_raw(rng: &mut Rng, sw: &Swarm, t: u8) -> Ast {
             let qos = rng.below(3) as u8;
             let props = gen_props(rng, sw, 3);
             let mut payload = payload_for(rng, sw, &props);
-            if sw.big_permil > 0 && rng.chance(1, 200) && !tiny() {
+            let flagged = props.iter().any(|(id, v)| *id == 0x01 && *v == PVal::Byte(1));
+            if (sw.big_permil > 0 && rng.chance(1, 200) || flagged && rng.chance(1, 60)) && !tiny() {
                 // payload sizes that are exact powers of two (buffer / chunk boundaries)
                 let n = 1usize << rng.urange(10, 17);
                 let delta = *rng.pick(&[0usize, 0, 0, 1]);
@@ -550,7 +576,7 @@ fn gen_packet_raw(rng: &mut Rng, sw: &Swarm, t: u8) -> Ast {
             Ast::Ack { kind: t, pid: gen_pid(rng), code, props }
         }
         8 => {
-            let n = if rng.chance(1, 1500) && !tiny() { *rng.pick(&[255usize, 256, 257, 300]) } else { 1 + rng.small(5) };
+            let n = if rng.chance(1, 400) && !tiny() { *rng.pick(&[255usize, 256, 257, 300]) } else { 1 + rng.small(5) };
             let topics = (0..n)
                 .map(|_| {
                     let o = if v5 {
@@ -564,20 +590,20 @@ fn gen_packet_raw(rng: &mut Rng, sw: &Swarm, t: u8) -> Ast {
             Ast::Subscribe { pid: gen_pid(rng), props: gen_props(rng, sw, 8), topics }
         }
         9 => {
-            let n = if rng.chance(1, 1500) && !tiny() { *rng.pick(&[255usize, 256, 257, 1000]) } else { rng.small(6) };
+            let n = if rng.chance(1, 150) && !tiny() { *rng.pick(&[255usize, 256, 257, 1000]) } else { rng.small(6) };
             let codes = (0..n)
                 .map(|_| if v5 { *rng.pick(spec::reason_codes(9)) } else { *rng.pick(&spec::V3_SUBACK_CODES) })
                 .collect();
             Ast::Suback { pid: gen_pid(rng), props: gen_props(rng, sw, 9), codes }
         }
         10 => {
-            let n = if rng.chance(1, 1500) && !tiny() { *rng.pick(&[255usize, 256, 257, 300]) } else { 1 + rng.small(5) };
+            let n = if rng.chance(1, 400) && !tiny() { *rng.pick(&[255usize, 256, 257, 300]) } else { 1 + rng.small(5) };
             let topics = (0..n).map(|_| gen_topic_filter(rng, sw)).collect();
             Ast::Unsubscribe { pid: gen_pid(rng), props: gen_props(rng, sw, 10), topics }
         }
         11 => {
             let codes = if v5 {
-                let n = if rng.chance(1, 1500) && !tiny() { *rng.pick(&[255usize, 256, 257]) } else { rng.small(6) };
+                let n = if rng.chance(1, 150) && !tiny() { *rng.pick(&[255usize, 256, 257]) } else { rng.small(6) };
                 (0..n).map(|_| *rng.pick(spec::reason_codes(11))).collect()
             } else {
                 vec![]
